@@ -7,7 +7,23 @@ ROOT = os.path.dirname(os.path.dirname(os.path.abspath(__file__)))
 props = [json.loads(l) for l in open(os.path.join(ROOT, "properties.jsonl"))]
 BASELINE = ("cd /repo && /venv/bin/python -m pytest -ra -q -p no:cacheprovider --timeout=900 "
             "--continue-on-collection-errors")
-TEXT = json.load(open(os.path.join(ROOT, "tools", "manifest_text.json")))
+import ast
+
+
+def manifest_text(pid):
+    """Read the MANIFEST = {...} literal of props/<pid>.py without importing it."""
+    path = os.path.join(ROOT, "props", pid.lower() + ".py")
+    if not os.path.exists(path):
+        return None
+    tree = ast.parse(open(path).read())
+    for node in tree.body:
+        if isinstance(node, ast.Assign) and any(getattr(t, "id", None) == "MANIFEST" for t in node.targets):
+            return ast.literal_eval(node.value)
+    return None
+
+
+TEXT = {p["id"]: manifest_text(p["id"]) for p in props}
+TEXT = {k: v for k, v in TEXT.items() if v}
 checks, na = [], []
 for p in props:
     pid = p["id"]
